@@ -1,10 +1,10 @@
 package ksim
 
 import (
-	"sort"
 	"crypto/sha256"
 	"encoding/hex"
 	"hash"
+	"sort"
 )
 
 type Oracle interface {
@@ -16,9 +16,9 @@ type Oracle interface {
 
 type baseOracle struct{}
 
-func (baseOracle) OnWrite(*Sim, *Write)            {}
-func (baseOracle) OnReconcileEnd(*Sim, *RecInfo)   {}
-func (baseOracle) OnEnd(*Sim)                      {}
+func (baseOracle) OnWrite(*Sim, *Write)          {}
+func (baseOracle) OnReconcileEnd(*Sim, *RecInfo) {}
+func (baseOracle) OnEnd(*Sim)                    {}
 
 // hashLog is the determinism log: every scheduler decision, fault and committed write is folded
 // into a running hash; optionally the lines are kept.
